@@ -45,6 +45,7 @@ type Loaded struct {
 	// functions that were given back their pinned form before the rules run (identity.go)
 	Notes       []string
 	orderNotes  []string
+	objDecl     map[types.Object]*ast.FuncDecl
 	identityErr error
 }
 
@@ -141,7 +142,12 @@ func load(repo, config, fixture string) (*Loaded, error) {
 						err = fmt.Errorf("internal: %v", e)
 					}
 				}()
-				return l.specialiseCallbacks()
+				n1, err := l.inlineSingleUseClosures()
+				if err != nil {
+					return nil, err
+				}
+				n2, err := l.specialiseCallbacks()
+				return append(n1, n2...), err
 			}()
 			if err != nil {
 				// the trees were touched: load again without this step
@@ -522,6 +528,36 @@ func (l *Loaded) ssaFunc(fi *FuncInfo) *ssa.Function {
 }
 
 // declAt returns the function declaration whose extent contains pos.
+// declOf: the function declaration an object is declared in (parameters, results and locals).
+// Unlike declAt it does not go by position, so the per-call-site copies of a specialised
+// helper (hof.go), which share their positions, are told apart.
+func (l *Loaded) declOf(obj types.Object) *ast.FuncDecl {
+	if obj == nil {
+		return nil
+	}
+	if l.objDecl == nil {
+		l.objDecl = map[types.Object]*ast.FuncDecl{}
+		for _, fi := range l.allFuncs() {
+			info := fi.Pkg.TypesInfo
+			decl := fi.Decl
+			ast.Inspect(decl, func(n ast.Node) bool {
+				if id, ok := n.(*ast.Ident); ok {
+					if o := info.Defs[id]; o != nil {
+						if _, dup := l.objDecl[o]; !dup {
+							l.objDecl[o] = decl
+						}
+					}
+				}
+				return true
+			})
+		}
+	}
+	if d := l.objDecl[obj]; d != nil {
+		return d
+	}
+	return l.declAt(obj.Pos())
+}
+
 func (l *Loaded) declAt(pos token.Pos) *ast.FuncDecl {
 	for _, fi := range l.allFuncs() {
 		if fi.Decl.Pos() <= pos && pos < fi.Decl.End() {
